@@ -128,13 +128,13 @@ Definition section := (Z * Z * Z * Z * list Z)%type.
 Inductive presult :=
 | PErr (section_index : Z) (code value errorLen current : Z)
 | PNil                                   (* "pointless" map: nil *)
-| PMap (nsources : Z) (maps : list mapping).
+| PMap (nsources nnames : Z) (maps : list mapping).   (* len(Sources), len(Names), Mappings *)
 
 (* the section loop of ParseSourceMap: sources/names counts accumulate, a
    section with empty mappings or no sources is skipped *)
 Fixpoint psections (secs : list section) (k : Z) (nsrc nnames : Z) (acc : list mapping) : res presult :=
   match secs with
-  | [] => Ok (if (nsrc =? 0) || (match acc with [] => true | _ => false end) then PNil else PMap nsrc (rev acc))
+  | [] => Ok (if (nsrc =? 0) || (match acc with [] => true | _ => false end) then PNil else PMap nsrc nnames (rev acc))
   | (lo, co, sl, nl, raw) :: rest =>
     if (len raw =? 0) || (sl =? 0) then psections rest (k + 1) nsrc nnames acc else
     let sourceOffset := wrap_i32 nsrc in
